@@ -123,7 +123,7 @@ func TestC10(t *testing.T) {
 		t.Fatal(err)
 	}
 
-	ncases := r.N(60, 300)
+	ncases := r.N(36, 300)
 	maxops := 40
 
 	type cs struct {
@@ -171,7 +171,7 @@ func TestC10(t *testing.T) {
 
 				witness := map[string]any{"case": i, "run": k, "plan": pl, "shape": x.c.Shape()}
 
-				ok := r.WithWatchdog(5*time.Minute, fmt.Sprintf("case %d run %d", i, k), func() {
+				ok := r.WithWatchdog(20*time.Minute, fmt.Sprintf("case %d run %d", i, k), func() {
 					r.Guard("Process", witness, func() {
 						x.outs[k] = runOnce(r, x.b, i, k, pl)
 					})
